@@ -129,6 +129,26 @@ DESC = {
     "C07-B": ("boolean helper's catch-all narrowed to `(RetryableError, TimeoutError)`", "a non-retryable error code answered to send_resources_subscribe"),
     "C13-A": ("`supports_batching` compares `datetime.date` objects", "a version string that is not a calendar date (2025-02-30, bogus)"),
     "C13-B": ("batch rejection tests truthiness of the parsed list", "an empty batch `[]` while batching is off"),
+    "C01-G": ("responses skipped by a call are kept per read stream and handed to a later call", "two calls one after the other on one connection, an other-id response bearing the LATER call's id received during the earlier call"),
+    "C01-H": ("`message_id if message_id is not None` in send_message + `if not id` in create_request", "caller-supplied message id \"\" or 0 (the id written differs from the id awaited)"),
+    "C03-G": ("`update_protocol_version` returns early for an unchanged version + `__aenter__` re-enables batching", "the same StdioClient connected again (or version preset before connecting) and a tracked handshake settling on the version it already carried, batching off"),
+    "C03-H": ("`ProtocolVersion.compare` on parsed tuples + fast path `compare(...) == 0`", "server answering the proposed version with a trailing line feed or in non-ASCII digits"),
+    "C05-G": ("per-line try guards only json.loads + batch rejection echoes `data[0].get(\"id\")`", "batching off and a junk array line whose first member is not an object"),
+    "C05-H": ("unterminated tail that parses as a complete object is processed eagerly", "junk line `{A}{B}` / `{A} trailing` and a read ending exactly after A's closing brace"),
+    "C06-G": ("stdin send under `fail_after(5 s)`, re-sent once on timeout", "child leaving stdin unread for more than 5 s after the bytes were handed to the pipe"),
+    "C06-H": ("stdlib JSONEncoder cached per set of option NAMES", "fallback model layer, stdlib JSON path and an earlier pretty-printing call in the process"),
+    "C11-G": ("session id stored in `self.headers`, which aliases `parameters.headers`", "two connections built from one StreamableHTTPParameters object, server issuing session ids"),
+    "C11-H": ("`_route_response` uses send_nowait", "more than 100 messages routed from one body before the reader takes any"),
+    "C12-G": ("event-stream buffer split with `splitlines()`", "raw U+2028/U+2029/U+0085 inside an event's JSON text"),
+    "C12-H": ("`_pending_requests` became a class-level dict", "two SSE connections alive, requests in the 202-wait state (same id, or the neighbour leaving)"),
+    "C14-G": ("'peer already told' flag moved onto the token", "one token shared by two requests (concurrent, or re-used after it was triggered)"),
+    "C14-H": ("cancellation noticed through a token callback + try/except hoisted out of the loop in `cancel()`", "a failing user callback registered on the token before the call"),
+    "C15-G": ("legacy SSE: endpoint heuristic applied to untyped events for the whole session", "untyped event whose JSON text contains /mcp or /messages/"),
+    "C15-H": ("one module-level incremental UTF-8 decoder for all stdio connections", "two stdio connections alive, a read boundary inside a multi-byte character on one and a read on the other in between"),
+    "C16-G": ("shutdown grace periods take the initialize timeout", "stdio_client_with_initialize and a child ignoring SIGTERM"),
+    "C16-H": ("`_pending` table hoisted to class level", "two connections alive using per-request streams with the same id, one server dead"),
+    "C18-G": ("`_pending` table moved to the class body", "two connections alive, per-request callers using the same ids"),
+    "C18-H": ("per-request entry removed after the main-stream hand-over instead of before", "caller re-registering the same id the moment its answer arrives"),
 }
 
 
